@@ -131,20 +131,63 @@ def _vo_stamp():
     return h.hexdigest()
 
 
+PA_EXACT = False   # set by Check.build_proofs: the thorough tier always asks per theorem (exact lists, refreshes the cache)
+
+
+def _pa_union(prop, names):
+    """One Print Assumptions question for a term that mentions every property theorem: the dependency closure (for theorems over
+    the reals: the whole Reals library) is walked once instead of once per theorem (~1-2 s instead of ~0.5-0.9 s per theorem).
+    Returns (kind, axioms, output): kind 'closed' (every theorem is closed under the global context - exact), 'axioms' (the union of
+    the theorems' axioms - an over-approximation of each theorem's own list) or None (the question could not be asked)."""
+    import shutil
+    d = os.path.join(BUILD, "pa", f"{os.getpid()}_{prop}_union"); shutil.rmtree(d, ignore_errors=True); os.makedirs(d, exist_ok=True)
+    fn = os.path.join(d, f"PAU_{prop}.v")
+    with open(fn, "w") as f:
+        f.write(f"From TLV Require Import Props.{prop}.\n")
+        f.write("Definition all_property_theorems : True :=\n" + "".join(f"  let _ := @{n} in\n" for n in names) + "  I.\n")
+        f.write('Goal True. idtac "@@BEGIN". exact I. Qed.\nPrint Assumptions all_property_theorems.\nGoal True. idtac "@@END". exact I. Qed.\n')
+    r = subprocess.run(["timeout", "600", "coqc", "-R", os.path.join(COQ, "theories"), "TLV", fn], capture_output=True, text=True, cwd=d)
+    shutil.rmtree(d, ignore_errors=True)
+    if r.returncode != 0 or "@@BEGIN" not in r.stdout or "@@END" not in r.stdout:
+        return None, [], r.stdout + r.stderr
+    body = r.stdout.split("@@BEGIN", 1)[1].split("@@END")[0]
+    if "Closed under the global context" in body:
+        return "closed", [], r.stdout
+    axs = sorted(a for a in set(re.findall(r"^([A-Za-z_][\w.']*)\s*:", body, re.M)) if a not in ("Axioms", "Variables", "Hypotheses"))
+    return ("axioms" if axs else None), axs, r.stdout
+
+
 def print_assumptions(prop, names):
-    """Ask Coq (fresh coqc runs, in parallel chunks) for the axioms each property theorem depends on.
-    Returns {theorem: [axioms]} for the theorems that exist in the compiled Props file.  The answer is a function of the
-    compiled .vo files only, so it is cached under build/ keyed by their time stamps and sizes (any rebuild invalidates it)."""
+    """Ask Coq (fresh coqc runs) for the axioms the property theorems depend on.  Returns {theorem: [axioms]} for the theorems that
+    exist in the compiled Props file.  The answer is a function of the compiled .vo files only, so exact per-theorem answers are
+    cached under build/ keyed by their time stamps and sizes (any rebuild invalidates the cache).  Without a valid cache the quick
+    tier first asks ONE question about all theorems together (_pa_union): if that term is closed, or depends on standard-library
+    axioms only, every theorem is clean and the verdict is decided (each theorem is then reported with the union, an
+    over-approximation of its own list, marked in the evidence); anything else - a missing theorem, a non-stdlib axiom, the
+    thorough tier (PA_EXACT) - is answered per theorem in parallel chunks, which also refreshes the cache."""
     from concurrent.futures import ThreadPoolExecutor
+    global PA_LAST_MODE
     cache = os.path.join(BUILD, "pa_cache", f"{prop}.json")
     stamp = _vo_stamp() + ":" + ",".join(names)
     try:
         c = json.load(open(cache))
         if c.get("stamp") == stamp and not os.environ.get("VERIF_NO_PA_CACHE"):
+            PA_LAST_MODE = "per-theorem (cached)"
             return c["res"], "(cached: compiled objects unchanged since the last Print Assumptions run)"
     except Exception:
         pass
-    k = max(1, min(6, len(names) // 6))
+    if names and not PA_EXACT and not os.environ.get("VERIF_PA_EXACT"):
+        kind, axs, out = _pa_union(prop, names)
+        if kind == "closed":
+            res = {n: [] for n in names}
+            os.makedirs(os.path.dirname(cache), exist_ok=True)
+            json.dump({"stamp": stamp, "res": res}, open(cache, "w"))
+            PA_LAST_MODE = "union question: closed under the global context (exact for every theorem)"
+            return res, out
+        if kind == "axioms" and not own_axioms(axs):
+            PA_LAST_MODE = "union question (quick tier): each theorem is listed with the union of all theorems' axioms, an over-approximation of its own list; exact per-theorem lists come from the thorough tier"
+            return {n: list(axs) for n in names}, out
+    k = max(1, min(NPROC, 12, len(names) // 4))
     parts = [names[i::k] for i in range(k)]
     res, outs = {}, []
     with ThreadPoolExecutor(k) as ex:
@@ -153,7 +196,11 @@ def print_assumptions(prop, names):
     if all(n in res for n in names):
         os.makedirs(os.path.dirname(cache), exist_ok=True)
         json.dump({"stamp": stamp, "res": res}, open(cache, "w"))
+    PA_LAST_MODE = "per-theorem"
     return res, "\n".join(outs)
+
+
+PA_LAST_MODE = ""
 
 
 STDLIB_AXIOM_PREFIXES = ("ClassicalDedekindReals.", "FunctionalExtensionality.", "Classical_Prop.",
@@ -378,8 +425,11 @@ class Check:
             tail = "\n".join(log.splitlines()[-25:])
             self.broken.append({"what": f"Coq build of Props/{self.prop}.vo failed", "detail": tail})
             return False
+        global PA_EXACT
+        PA_EXACT = (self.tier == "thorough")
         axs, out = print_assumptions(self.prop, names)
         self.axioms = axs
+        self.axioms_mode = PA_LAST_MODE
         self.discharged = sum(1 for n in names if n in axs)
         for n in names:
             if n not in axs:
@@ -467,6 +517,7 @@ class Check:
                                "hand-written Gallina model tied to the code by this run's correspondence check (sampled, not universal)",
                                "harness: generators, literal printers, comparators"] + self.trusted
         cov["axioms_per_theorem"] = self.axioms
+        cov["axioms_per_theorem_mode"] = getattr(self, "axioms_mode", "")
         cov["known_findings_hit"] = sorted(self.known_hit)
         cov["notes"] = self.notes
         cov["broken"] = jsonable(self.broken)[:10]
